@@ -10,7 +10,7 @@ the operator patterns as constructor inverses in `Theorems/C12Inverse.lean`.)
       for every pattern (`assign_no_panic`)
   §6  `switch` runs the first arm that matches (`switch_first_match`), `catch`, lambda parameters
   §7  the recorded defect: `or` does not roll back — the unrestricted statement is refuted
-  §10 statements that are defined in the Spec but not proved yet (`…_statement`)
+  §10 the statements of the relational layer (`…_statement`; discharged in C12Matches0 / C12Matches)
 -/
 import NoulithModel.Lemmas.C12
 
@@ -1007,7 +1007,8 @@ example :
       (.list [.int 2, .int 7, .int 8])).2 = .ok () := by
   constructor <;> decide
 
-/-! ## §10 stated, not proved -/
+/-! ## §10 statements of the relational layer (proved in `Theorems/C12Matches0.lean` / `C12Matches.lean`:
+`specArrange_iff_Arranged_holds`, `specAssign_iff_Matches_holds`, `destructure_iff_Inverts_holds`) -/
 
 /-- the executable arrangement is exactly the relation `Arranged` of `Spec/Match.lean` -/
 def specArrange_iff_Arranged_statement : Prop :=
@@ -1020,7 +1021,7 @@ def specAssign_iff_Matches_statement : Prop :=
     (specAssign e p (some T) v = some e' ↔ ∃ β, Matches p T v β ∧ declareAll e β = some e')
 
 /-- each destructuring builtin computes exactly the inverse image `Inverts` of its constructor
-(soundness for every builtin and completeness for `+`, `.+`, `+.` are proved in `C12Inverse`) -/
+(proved for every value, without the side condition, as `destructure_iff_Inverts`) -/
 def destructure_iff_Inverts_statement : Prop :=
   ∀ (f : Bi) (known : List (Option Val)) (v : Val) (parts : List Val),
     exactNum v ≠ none ∨ isSeqVal v = true →
